@@ -41,6 +41,8 @@ def method(ip, recv, name, args, kwargs):
     if name in ("startswith", "endswith") and len(args) == 1 and (isinstance(args[0], str) or (isinstance(args[0], Sym) and args[0].t.sort() == S)):
         f = z3.PrefixOf if name == "startswith" else z3.SuffixOf
         return c.concretise(Sym(z3.simplify(f(_t(args[0]), t)), "bool"))
+    if name in ("isupper", "islower", "isdigit", "isalpha", "isspace", "isalnum", "isnumeric", "isdecimal", "istitle", "isascii") and not args:
+        return c.concretise(Sym(z3.Function("py_str_" + name, S, B)(t), "bool"))
     if name == "strip" and not args:
         return Sym(U_STRIP(t), "str")
     if name == "lower" and not args:
